@@ -41,6 +41,7 @@ class Ctx:
         self.rules_run: List[str] = []
         self.extra: Dict[str, Any] = {}
         self.out_of_scope: List[Dict[str, str]] = []
+        self.analysis_errors: List[str] = []  # rules that could not read the code (exit 2 unless another rule reports a definite violation)
 
     # -- recording -----------------------------------------------------------
     def ok(self, rule: str, instance: str, nontrivial: bool = True, sample: Any = None) -> None:
@@ -146,6 +147,7 @@ def finish(ctx: Ctx, level_explanation: str, out=sys.stdout) -> int:
             "known_findings_reported": [f.key for f, _ in known_hits],
             "violations": [{"key": f.key, "loc": f.loc, "message": f.message} for f in violations],
             "out_of_scope_findings": ctx.out_of_scope,
+            "analysis_errors": ctx.analysis_errors,
             "checker_cmd": f"/venv/bin/python -m nucsverif check {ctx.prop} --tier {ctx.tier}",
             "trusted_base": ["CPython ast module", "nucsverif program model / abstract interpreter", "rule tables under /verif/nucsverif/props"],
             "exhaustive": True,
@@ -158,7 +160,13 @@ def finish(ctx: Ctx, level_explanation: str, out=sys.stdout) -> int:
     with open(os.path.join(OUT, "evidence", f"{ctx.prop}.json"), "w") as fh:
         json.dump(_jsonable(ev), fh, indent=1)
     if violations:
+        for a in ctx.analysis_errors:
+            print(f"NOTE property={ctx.prop}: a rule could not read the code (would be exit 2 on its own): {a}", file=out)
         return 1
+    if ctx.analysis_errors:
+        for a in ctx.analysis_errors:
+            print(f"ANALYSIS-ERROR property={ctx.prop}: {a}", file=out)
+        return 2
     if floor_fail:
         for r, n, m in floor_fail:
             print(f"ANALYSIS-ERROR property={ctx.prop} rule {r}: {n} instances found, at least {m} confirmed by hand "
